@@ -91,16 +91,15 @@ theorem majority_first_choice_wins {E : Engine} (hE : EngineOK E) {cfg : Cfg} {v
 
 /-- **Mutual majority.**  In a single-seat count (`eliminate_step = -1`, any transferer meeting the
     specification, a quota of at least half the votes), if the ballots that rank exactly the candidates `S`
-    above everyone else hold more than half of all votes cast — through ranks that are not shared (`solidStrict`,
-    see `solidStrict_iff`; in particular ballots without any shared rank) — then the winner, whenever one is
-    returned, is a member of `S`. -/
+    above everyone else (shared ranks allowed anywhere, also inside `S`) hold more than half of all votes cast,
+    then the winner, whenever one is returned, is a member of `S`. -/
 theorem mutual_majority {E : Engine} (hE : EngineOK E) {cfg : Cfg} {votes : Profile} (hwf : WFVotes votes)
-    {S : List Cand} (hS : S ≠ []) (hstrict : ∀ bw ∈ votes, solidFor bw.1 S = true → solidStrict bw.1 S = true)
+    {S : List Cand} (hS : S ≠ [])
     (hmaj : totalVotes votes / 2 < support votes S) (hstep : cfg.step = some (-1))
     (hq : QuotaAtLeastHalf cfg votes) {ds : List Draw} {l : List Cand}
     (h : selectorEvaluate E cfg votes 1 ds = .ok l) : ∃ c ∈ S, l = [c] := by
   obtain ⟨st, hr, hsum, rfl⟩ := selectorEvaluate_ok h
-  have hm := mut_reach hE ⟨hwf, hstrict, hmaj, hstep, hq⟩ hS hr
+  have hm := mut_reach hE ⟨hwf, hmaj, hstep, hq⟩ hS hr
   rcases hm with ⟨hs0, _⟩ | ⟨c, hcS, hs1⟩
   · rw [hs0] at hsum; simp [sumSeats] at hsum
   · exact ⟨c, hcS, by rw [hs1]; simp [distributionToSelection, sortDesc, insertDesc]⟩
@@ -187,46 +186,18 @@ theorem hare_sub_bound : SubBound hare := hare_subBound
 /-- **Proportionality for solid coalitions (any number of seats).**  Selector form, `eliminate_step = -1`,
     `accept_quota_equal`, any transferer meeting the specification (Gregory, Hare under the draw contract), a
     positive quota `q` with `(n+1)·q > votes cast` (Droop, Hare).  If the ballots that rank exactly the
-    candidates `S` above everyone else — doing so through ranks that are not shared (`solidStrict`; shared ranks
-    further down the ballot are allowed) — hold at least `k` quotas, then every returned list contains at least
-    `k` members of `S`, or all of `S`. -/
+    candidates `S` above everyone else (`solidFor`: some prefix of the ranks of the ballot holds exactly `S`;
+    shared ranks are allowed everywhere, also inside the coalition) hold at least `k` quotas, then every returned
+    list contains at least `k` members of `S`, or all of `S`.  No restriction on the profile remains. -/
 theorem psc_general {E : Engine} (hE : EngineOK E) (hB : SubBound E) {cfg : Cfg} {votes : Profile} {n : Nat}
     (hwf : WFVotes votes) (hstep : cfg.step = some (-1)) (heq : cfg.acceptEqual = true)
     {q : Rat} (hquota : computeQuota cfg (totalVotes votes) n = some q) (hqpos : 0 < q)
     (hdroop : totalVotes votes < ((n : Rat) + 1) * q)
     {S : List Cand} (hS : S.Nodup) (hne : S ≠ [])
-    (hstrict : ∀ bw ∈ votes, solidFor bw.1 S = true → solidStrict bw.1 S = true)
     {k : Nat} (hk : (k : Rat) * q ≤ support votes S)
     {ds : List Draw} {l : List Cand} (h : selectorEvaluate E cfg votes n ds = .ok l) :
     min k S.length ≤ electedIn l S :=
-  psc_selector hE hB ⟨hwf, hstrict, hS, hne, hstep, heq, hquota, hqpos, hdroop, hk⟩ h
-
-/-- what `solidStrict` asks: the ranks through which the ballot is solid for `S` are single candidates -/
-theorem solidStrict_iff {b : Ballot} {S : List Cand} :
-    solidStrict b S = true ↔ ∃ j ≤ b.length, (∀ x, x ∈ ballotCands (b.take j) ↔ x ∈ S) ∧
-      ∀ it ∈ b.take j, ∃ c, it = RankItem.one c := by
-  unfold solidStrict
-  rw [List.any_eq_true]
-  constructor
-  · rintro ⟨j, hj, h⟩
-    rw [Bool.and_eq_true] at h
-    refine ⟨j, by simpa [Nat.lt_succ_iff] using hj, sameSet_iff.mp h.1, ?_⟩
-    intro it hit
-    have := (List.all_eq_true.mp h.2) it hit
-    cases it with
-    | one c => exact ⟨c, rfl⟩
-    | shared cs => simp [isOne] at this
-  · rintro ⟨j, hj, h1, h2⟩
-    refine ⟨j, by simpa [Nat.lt_succ_iff] using hj, ?_⟩
-    rw [Bool.and_eq_true]
-    refine ⟨sameSet_iff.mpr h1, List.all_eq_true.mpr ?_⟩
-    intro it hit
-    obtain ⟨c, rfl⟩ := h2 it hit
-    rfl
-
-/-- ballots without any shared rank qualify -/
-theorem solidStrict_of_no_shared_rank {b : Ballot} {S : List Cand} (hn : noShared b = true)
-    (hs : solidFor b S = true) : solidStrict b S = true := solidStrict_of_noShared hn hs
+  psc_selector hE hB ⟨hwf, hS, hne, hstep, heq, hquota, hqpos, hdroop, hk⟩ h
 
 /-- the Droop quota exceeds `votes / (n + 1)` -/
 theorem droop_exceeds {cfg : Cfg} (hc : cfg.quota = some Gen.Quota.droop) {votes : Profile} (hwf : WFVotes votes)
@@ -272,46 +243,33 @@ theorem psc_droop {E : Engine} (hE : EngineOK E) (hB : SubBound E) {cfg : Cfg} {
     (hwf : WFVotes votes) (hstep : cfg.step = some (-1)) (heq : cfg.acceptEqual = true)
     (hc : cfg.quota = some Gen.Quota.droop) {q : Rat} (hquota : computeQuota cfg (totalVotes votes) n = some q)
     {S : List Cand} (hS : S.Nodup) (hne : S ≠ [])
-    (hstrict : ∀ bw ∈ votes, solidFor bw.1 S = true → solidStrict bw.1 S = true)
     {k : Nat} (hk : (k : Rat) * q ≤ support votes S)
     {ds : List Draw} {l : List Cand} (h : selectorEvaluate E cfg votes n ds = .ok l) :
     min k S.length ≤ electedIn l S :=
-  psc_general hE hB hwf hstep heq hquota (droop_positive hc hwf n q hquota) (droop_exceeds hc hwf hquota) hS hne hstrict hk h
+  psc_general hE hB hwf hstep heq hquota (droop_positive hc hwf n q hquota) (droop_exceeds hc hwf hquota) hS hne hk h
 
-/-- … and so every outcome on a profile without shared ranks passes the verified checker -/
+/-- … and so every outcome, on every profile, passes the verified checker -/
 theorem psc_check_passes {E : Engine} (hE : EngineOK E) (hB : SubBound E) {cfg : Cfg} {votes : Profile} {n : Nat}
     (hwf : WFVotes votes) (hstep : cfg.step = some (-1)) (heq : cfg.acceptEqual = true)
     {q : Rat} (hquota : computeQuota cfg (totalVotes votes) n = some q) (hqpos : 0 < q)
-    (hdroop : totalVotes votes < ((n : Rat) + 1) * q) (hns : ∀ bw ∈ votes, noShared bw.1 = true)
+    (hdroop : totalVotes votes < ((n : Rat) + 1) * q)
     {ds : List Draw} {l : List Cand} (h : selectorEvaluate E cfg votes n ds = .ok l) :
     pscCheck votes q l = true :=
   (pscCheck_sound_complete hqpos hwf l).mpr (fun _ hS hne _ hk =>
-    psc_general hE hB hwf hstep heq hquota hqpos hdroop hS hne
-      (fun bw hbw hs => solidStrict_of_noShared (hns bw hbw) hs) hk h)
+    psc_general hE hB hwf hstep heq hquota hqpos hdroop hS hne hk h)
 
-/-! ## what is known to fail: coalitions whose supporters share a rank inside the coalition -/
+/-! ## the former counter-example (repaired by 4eda093) -/
 
 section Witness
 /-- ballots  {a,b} > c ×10,  c ×6,  a ×1  (a=0, b=1, c=2): ten of seventeen voters rank {a,b} above c -/
 def wVotes : Profile := [([.shared [0, 1], .one 2], 10), ([.one 2], 6), ([.one 0], 1)]
 def wCfg : Cfg := { quota := some Gen.Quota.droop, acceptEqual := true, mandatory := false, step := some (-1) }
 
-/-- **Witness (known finding).**  With a shared rank inside the coalition the count seats nobody of a
-    majority coalition: the model — like the implementation — elects `c`, and the verified checker rejects it.
-    `ranked_next` passes the papers of the eliminated `b` over `a`, who shares the rank, to `c`. -/
-theorem psc_shared_rank_witness :
-    selectorEvaluate gregory wCfg wVotes 1 [] = .ok [2] ∧ computeQuota wCfg (totalVotes wVotes) 1 = some 9 ∧
-    support wVotes [0, 1] = 10 ∧ pscCheck wVotes 9 [2] = false := by decide +kernel
-
-theorem psc_shared_rank_witness_spec :
-    ¬ ∀ S : List Cand, S.Nodup → S ≠ [] → ∀ k : Nat, (k : Rat) * 9 ≤ support wVotes S →
-      min k S.length ≤ electedIn [2] S := by
-  intro h
-  have hwf : WFVotes wVotes := by
-    intro bw hbw; simp [wVotes] at hbw; rcases hbw with h | h | h <;> rw [h] <;> decide
-  have := (pscCheck_sound_complete (by norm_num : (0 : Rat) < 9) hwf [2]).mpr h
-  rw [psc_shared_rank_witness.2.2.2] at this
-  cases this
+/-- Before commit 4eda093 `ranked_next` passed the papers of the eliminated `b` over `a`, who shares the rank,
+    to `c`, and `c` won against a majority coalition.  Now `a` wins and the verified checker accepts. -/
+theorem shared_rank_coalition_seated :
+    selectorEvaluate gregory wCfg wVotes 1 [] = .ok [0] ∧ computeQuota wCfg (totalVotes wVotes) 1 = some 9 ∧
+    support wVotes [0, 1] = 10 ∧ pscCheck wVotes 9 [0] = true ∧ pscCheck wVotes 9 [2] = false := by decide +kernel
 end Witness
 
 /-! ## non-vacuity -/
@@ -330,7 +288,6 @@ example : pscCheck mVotes 6 [0] = true ∧ pscCheck mVotes 6 [1] = false := by d
 /-- a majority coalition {a, b} (a>b>c ×3, b>a>c ×3 of 11) against c with 5 first preferences: b wins -/
 def cVotes : Profile := [([.one 0, .one 1, .one 2], 3), ([.one 1, .one 0, .one 2], 3), ([.one 2], 5)]
 example : totalVotes cVotes / 2 < support cVotes [0, 1] ∧
-    (∀ bw ∈ cVotes, solidFor bw.1 [0, 1] = true → solidStrict bw.1 [0, 1] = true) ∧
     selectorEvaluate gregory wCfg cVotes 1 [] = .error .notImplemented := by decide +kernel
 def cVotes2 : Profile := [([.one 0, .one 1, .one 2], 4), ([.one 1, .one 0, .one 2], 3), ([.one 2], 6)]
 example : totalVotes cVotes2 / 2 < support cVotes2 [0, 1] ∧ firstPrefTotal cVotes2 2 = 6 ∧
@@ -340,14 +297,16 @@ example : totalVotes cVotes2 / 2 < support cVotes2 [0, 1] ∧ firstPrefTotal cVo
 def pVotes : Profile :=
   [([.one 0, .one 1, .one 2], 4), ([.one 1, .one 0, .one 2], 3), ([.one 2, .one 3], 5), ([.one 3], 6), ([.one 4, .one 3], 2)]
 example : computeQuota wCfg (totalVotes pVotes) 2 = some 7 ∧ ((1 : Nat) : Rat) * 7 ≤ support pVotes [0, 1] ∧
-    (∀ bw ∈ pVotes, solidFor bw.1 [0, 1] = true → solidStrict bw.1 [0, 1] = true) ∧
     selectorEvaluate gregory wCfg pVotes 2 [] = .ok [3, 0] ∧ electedIn [3, 0] [0, 1] = 1 := by decide +kernel
-/-- a supporter of {a, b} with a shared rank *below* the coalition: covered by `psc_general`, not by `noShared` -/
+/-- a supporter of {a, b} with a shared rank below the coalition -/
 def qVotes : Profile := [([.one 0, .one 1, .shared [2, 3]], 7), ([.one 2], 5), ([.one 3, .one 2], 4)]
 example : computeQuota wCfg (totalVotes qVotes) 2 = some 6 ∧ ((1 : Nat) : Rat) * 6 ≤ support qVotes [0, 1] ∧
-    (∀ bw ∈ qVotes, solidFor bw.1 [0, 1] = true → solidStrict bw.1 [0, 1] = true) ∧
     (∃ bw ∈ qVotes, solidFor bw.1 [0, 1] = true ∧ noShared bw.1 = false) ∧
     selectorEvaluate gregory wCfg qVotes 2 [] = .ok [0, 2] := by decide +kernel
+/-- supporters sharing a rank *inside* the coalition, two seats: {a,b} > c ×7, a ×1, c ×5, d > c ×4 -/
+def rVotes : Profile := [([.shared [0, 1], .one 2], 7), ([.one 0], 1), ([.one 2], 5), ([.one 3, .one 2], 4)]
+example : computeQuota wCfg (totalVotes rVotes) 2 = some 6 ∧ ((1 : Nat) : Rat) * 6 ≤ support rVotes [0, 1] ∧
+    selectorEvaluate gregory wCfg rVotes 2 [] = .ok [0, 2] ∧ pscCheck rVotes 6 [0, 2] = true := by decide +kernel
 /-- the profile on which the count stalled before the repair b992cbb: `{('c','a'):2, ('b',):8}`, two seats -/
 def lVotes : Profile := [([.one 2, .one 0], 2), ([.one 1], 8)]
 example : 2 ≤ (allRanked lVotes).length ∧ selectorEvaluate gregory wCfg lVotes 2 [] = .ok [1, 2] := by decide +kernel
